@@ -25,12 +25,14 @@ Results: /verif/work/mutant_sweep_<tag>.json (written after every mutant; an exi
 import concurrent.futures, glob, json, os, shutil, signal, subprocess, sys, threading, time
 
 RELEVANT = {
-    # file -> checks, cheapest likely detector first (the sets are those of the brief)
-    'vm':       ['C05', 'C02', 'C01', 'C20', 'C15', 'C03', 'C07'],
-    'compile':  ['C02', 'C01', 'C13', 'C15', 'C03', 'C14'],
-    'analyze':  ['C13', 'C16', 'C01', 'C06'],
-    'parse':    ['C06', 'C19', 'C17', 'C15', 'C14'],
-    'lib':      ['C09', 'C08', 'C10', 'C11', 'C16', 'C17', 'C04', 'C05', 'C14'],
+    # file -> checks (the sets are those of the brief), cheapest likely detector first; wall seconds of each check on the
+    # unmodified crate with one shard worker: C17 1, C12 6, C20 8, C09 14, C04 16, C14 21, C08 29, C02 40, C15 44, C13 47,
+    # C06 52, C05 58, C01 59, C16 59, C03 62, C10 100, C19 149, C11 167, C07 237
+    'vm':       ['C20', 'C02', 'C01', 'C05', 'C15', 'C03', 'C07'],
+    'compile':  ['C14', 'C02', 'C01', 'C13', 'C15', 'C03'],
+    'analyze':  ['C13', 'C01', 'C16', 'C06'],
+    'parse':    ['C17', 'C06', 'C14', 'C15', 'C19'],
+    'lib':      ['C17', 'C09', 'C04', 'C08', 'C14', 'C16', 'C05', 'C10', 'C11'],
     'expand':   ['C12', 'C11'],
     'replacer': ['C12', 'C11'],
 }
